@@ -49,9 +49,17 @@ def mutate(rng, text):
 QUEUE64 = "index out of range [64] with length 64"
 
 
+LALRNIL = "lookahead.ComputeLALR1Kernels"
+
+
 def tag_of(message, default="panic"):
-    """Panics of the dependency's 64-slot queue (known finding D28) are told apart by their message."""
-    return "dependency-queue-64" if QUEUE64 in (message or "") else default
+    """Panics inside the dependency that are recorded findings are told apart by their message / top frame:
+    the 64-slot queue (D28) and the nil dereference of the LALR(1) kernel computation (D29)."""
+    if QUEUE64 in (message or ""):
+        return "dependency-queue-64"
+    if LALRNIL in (message or "") and "nil pointer dereference" in (message or ""):
+        return "dependency-lalr-nil-deref"
+    return default
 
 
 def as_text(b):
@@ -93,8 +101,9 @@ def check(tier):
         inputs.append(("wellformed", S.gen_wellformed(rng).encode("utf-8")))
     inputs += [("edge", b""), ("edge", b"grammar"), ("edge", b"grammar g"), ("edge", b"grammar g;"), ("edge", b"\xef\xbb\xbfgrammar g;"), ("edge", b"\x00"),
                ("edge", b"grammar g; start = ;"), ("edge", b"grammar g; start = " + b"(" * 200 + b'"x"' + b")" * 200 + b";"),
-               ("edge", b"grammar g; start = " + b'"x" ' * 600 + b";"), ("edge", b"grammar g; s = " + b"{" * 40 + b'"x"' + b"}" * 40 + b"; start = s;")]
+               ("edge", b"grammar g; start = " + b'"x" ' * 120 + b";"), ("edge", b"grammar g; s = " + b"{" * 40 + b'"x"' + b"}" * 40 + b"; start = s;")]
     inputs.append(("edge", b'grammar g; start = "' + b"k" * 64 + b'";'))
+    inputs.append(("edge", b'grammar g; start = c c; c = c "*";'))
     texts = []
     for kind, b in inputs:
         try:
@@ -174,13 +183,15 @@ def check(tier):
     # ---- the command-line tool: every failure is a message and a non-zero status, never a stack trace ----
     exe = c08.emerge_binary()
     scratch = tempfile.mkdtemp(prefix="verif-c14-")
-    cli_bad, cli_runs = [], 0
+    cli_bad, cli_runs, file_texts = [], 0, {}
     try:
         files = {}
-        for i, (kind, b) in enumerate(inputs[:: max(1, len(inputs) // (60 if tier == "quick" else 600))]):
+        sampled = inputs[:: max(1, len(inputs) // (60 if tier == "quick" else 600))] + [x for x in inputs if x[0] == "edge"]
+        for i, (kind, b) in enumerate(sampled):
             p = os.path.join(scratch, "in%d.grammar" % i)
             open(p, "wb").write(b)
             files[p] = (kind, b)
+            file_texts[p] = b.decode("latin-1")
         p64 = os.path.join(scratch, "long_literal.grammar")
         open(p64, "wb").write(b'grammar g; start = "' + b"k" * 64 + b'";')
         files[p64] = ("edge", b"")
@@ -196,12 +207,12 @@ def check(tier):
             out = os.path.join(scratch, "out%d" % cli_runs)
             os.mkdir(out)
             try:
-                p = subprocess.run([exe] + av, cwd=out, stdout=subprocess.PIPE, stderr=subprocess.PIPE, timeout=60)
+                p = subprocess.run([exe] + av, cwd=out, stdout=subprocess.PIPE, stderr=subprocess.PIPE, timeout=120)
                 se = p.stderr.decode("utf-8", "replace")
                 so = p.stdout.decode("utf-8", "replace")
                 trace = "goroutine 1 [running]" in se or "panic:" in se or "fatal error:" in se
                 if trace:
-                    cli_bad.append((av, "stack trace", (QUEUE64 + " ... " if QUEUE64 in se else "") + se[-500:]))
+                    cli_bad.append((av, "stack trace", (QUEUE64 + " ... " if QUEUE64 in se else "") + se[se.find("panic:"):][:700] + " ... " + se[-400:]))
                 elif p.returncode not in (0, 1, 2):
                     cli_bad.append((av, "status %d" % p.returncode, se[-300:]))
                 elif p.returncode != 0 and not (se.strip() or so.strip()):
@@ -217,7 +228,11 @@ def check(tier):
     for av, why, tail in cli_bad:
         if new_cli >= 3:
             break
-        if rep.failure("cli", {tag_of(tail, "cli")}, {"argv": [a if len(a) < 200 else a[:200] + "..." for a in av], "why": why, "stderr": tail}):
+        content = None
+        if av and av[-1] in file_texts:
+            content = file_texts[av[-1]]
+        if rep.failure("cli", {tag_of(tail, "cli")}, {"argv": [a if len(a) < 200 else a[:200] + "..." for a in av], "why": why, "stderr": tail,
+                                                      "input_text": content}):
             new_cli += 1
     rep.obligation("emerge binary on %d command lines / input files: a message and status 0, 1 or 2; no stack trace; no hang (recorded findings apart)" % cli_runs, not new_cli)
 
